@@ -20,6 +20,7 @@ import (
 
 	"verifharness/ctxcheck"
 	"verifharness/elaenv"
+	"verifharness/fixture"
 	"verifharness/lib"
 )
 
@@ -665,7 +666,14 @@ func main() {
 	}
 	var _ interfaces.Transaction
 	// ---------------- end to end on the chain fixture (real SpecialContextCheck results)
-	e2e(run, st, rng)
+	fx, err := fixture.New(fixture.Options{})
+	if err != nil {
+		st.Fail("c01:e2e-fixture", "cannot start the chain fixture: "+err.Error(), nil)
+	} else {
+		early(run, st, sh, next, rng, fx)
+		e2e(run, st, rng, fx)
+		fx.Close()
+	}
 	st.Traces = st.Evals
 	sh.Flush()
 	st.Write(run.Out)
